@@ -929,9 +929,8 @@ impl Builtin for TilBuiltin {
                     (Some(a), None, Some(b), None) => Ok(Obj::from(
                         // too lazy to make it lazy...
                         ((a as u32)..(b as u32))
-                            .map(|c| {
-                                std::char::from_u32(c).expect("string range incoherent roundtrip")
-                            })
+                            // the surrogate code points in between are not characters: skip them
+                            .filter_map(std::char::from_u32)
                             .collect::<String>(),
                     )),
                     _ => Err(NErr::argument_error(format!("til: Bad string args"))),
@@ -1005,9 +1004,8 @@ impl Builtin for ToBuiltin {
                     (Some(a), None, Some(b), None) => Ok(Obj::from(
                         // too lazy to make it lazy...
                         ((a as u32)..=(b as u32))
-                            .map(|c| {
-                                std::char::from_u32(c).expect("string range incoherent roundtrip")
-                            })
+                            // the surrogate code points in between are not characters: skip them
+                            .filter_map(std::char::from_u32)
                             .collect::<String>(),
                     )),
                     _ => Err(NErr::argument_error(format!(
